@@ -61,6 +61,8 @@ func vpSampleTrees(tag string, shape int) []*Node {
 	// whitespace classes are covered); the other names are fixed
 	sym := func() *Node { return &Node{Name: vpName(tag+"a", 1)} }
 	switch shape {
+	case 4:
+		return []*Node{{Name: vpName(tag+"long", 4200)}, {Name: "b"}}
 	case 0:
 		return []*Node{sym()}
 	case 1:
@@ -136,13 +138,24 @@ func vpHasDist(n *Node) bool {
 
 func vpFixedPoint(rec any) (bool, bool) {
 	n := rec.(*Node)
-	if vpHasDist(n) {
-		return false, false // float <-> text is only run on concrete values
-	}
+	// (trees with branch lengths take part: lengths parsed from concrete text
+	// are exact, and the stub used on symbolic text returns concrete values)
 	txt, err := n.MarshalText()
 	if err != nil {
 		return true, false
 	}
 	got := vpCollect(vpOneShot(txt), 3)
 	return true, len(got) == 1 && !got[0].err && vpSameTree(got[0].n, n)
+}
+
+func vpOneRecord(i, extra int) []byte {
+	out := []byte{'('}
+	for k := 0; k <= extra; k++ {
+		out = append(out, 'n')
+	}
+	out = append(out, ',')
+	for j := 0; j < 8; j++ {
+		out = append(out, "acgt"[(i+j*j)%4])
+	}
+	return append(out, ");\n"...)
 }
